@@ -23,7 +23,7 @@ def dispatch (prop : String) (inp out : List String) : Verdict :=
   | "C03" => SessDrv.check "C03" inp out
   | "C04" => SessDrv.check "C04" inp out
   | "C05" => if inp.head? == some "bus" then BusDrv.check inp out else SessDrv.check "C05" inp out
-  | "C14" => SessDrv.check "C14" inp out
+  | "C14" => if inp.head? == some "bus" then BusDrv.check inp out else SessDrv.check "C14" inp out
   | "C06" => if inp.head? == some "auth" then AuthDrv.check "C06" inp out
              else if inp.head? == some "live" then
                -- concurrent flood, then probes: the three tasks of the network service are all still working
